@@ -10,6 +10,7 @@ import (
 
 	"git.apache.org/thrift.git/lib/go/thrift"
 	"github.com/henrylee2cn/erpc/v6/codec"
+	wspb "github.com/henrylee2cn/erpc/v6/mixer/websocket/pbSubProto/pb"
 	"github.com/henrylee2cn/erpc/v6/plugin/secure"
 	"github.com/henrylee2cn/erpc/v6/proto/pbproto/pb"
 )
@@ -228,7 +229,50 @@ func rtCase(c *EnumCtx, cd codec.Codec, class string, val interface{}) {
 		if prev, ok := dirtyDest[rv.Elem().Type()]; !ok || len(enc) > len(prev) {
 			dirtyDest[rv.Elem().Type()] = enc // the longest encoding seen for this type
 		}
+		// re-checked at the end of the enumeration against the longest encoding of the whole zoo, so that the
+		// verdict does not depend on the order of the alphabet (a zero value decoded over a non-zero one)
+		dirtyCases = append(dirtyCases, dirtyCase{cd: cd, class: class, name: name, enc: enc, want: a.Elem().Interface(), typ: rv.Elem().Type()})
 	}
+}
+
+type dirtyCase struct {
+	cd          codec.Codec
+	class, name string
+	enc         []byte
+	want        interface{}
+	typ         reflect.Type
+}
+
+var dirtyCases []dirtyCase
+
+// dirtyFinal decodes every value of the zoo into a destination that holds the longest-encoded value of its type.
+func dirtyFinal(c *EnumCtx) {
+	for _, dc := range dirtyCases {
+		prev, ok := dirtyDest[dc.typ]
+		if !ok || bytes.Equal(prev, dc.enc) {
+			continue
+		}
+		c.Case(dc.cd.Name()+"/dirty-"+dc.class, dc.name)
+		func() {
+			defer func() {
+				if r := recover(); r != nil {
+					c.Fail(fmt.Sprintf("%s: decoding into a used destination panics (%s)", dc.cd.Name(), dc.class), dc.name, fmt.Sprint(r))
+				}
+			}()
+			d2 := reflect.New(dc.typ)
+			if err := dc.cd.Unmarshal(prev, d2.Interface()); err != nil {
+				return
+			}
+			if err := dc.cd.Unmarshal(dc.enc, d2.Interface()); err != nil {
+				return
+			}
+			normalize(d2)
+			if !reflect.DeepEqual(dc.want, d2.Elem().Interface()) {
+				c.Fail(fmt.Sprintf("%s: decoding into a destination that held another value does not yield the encoded value (%s)", dc.cd.Name(), dc.class), dc.name, fmt.Sprintf("got %+v via %q after %q", trimVal(d2.Elem().Interface()), trimB(dc.enc), trimB(prev)))
+			}
+		}()
+	}
+	dirtyCases = nil
 }
 
 func trimB(b []byte) []byte {
@@ -372,6 +416,15 @@ func c11Roundtrip(c *EnumCtx) {
 			rtCase(c, pbc, "payload", &p)
 		}
 	}
+	// the websocket sub-protocol's payload message (a generated type with its own Marshal/Unmarshal methods)
+	for _, s := range []string{"", "a", "/a/b", strings.Repeat("x", 17), "é"} {
+		for _, i := range []int32{0, 1, -1, math.MaxInt32, math.MinInt32} {
+			for _, b := range [][]byte{nil, {0}, []byte("body"), bytes.Repeat([]byte{0xff}, 17)} {
+				p := wspb.Payload{Seq: i, Mtype: i, ServiceMethod: s, Meta: []byte(s), BodyCodec: i, Body: b, XferPipe: b}
+				rtCase(c, pbc, "wspayload", &p)
+			}
+		}
+	}
 	// ---- thrift ----
 	th := get("thrift")
 	for _, s := range c11Strings(false, false) {
@@ -380,6 +433,7 @@ func c11Roundtrip(c *EnumCtx) {
 			rtCase(c, th, "struct", &v)
 		}
 	}
+	dirtyFinal(c)
 }
 
 type guarded struct {
